@@ -178,6 +178,13 @@ func (s *SimRegistry) Requests() []ReqRecord {
 
 func (s *SimRegistry) SetFaults(f []NetFault) { s.faults = f }
 
+// ResetFaultCounters forgets which faults matched or fired (a new execution begins).
+func (s *SimRegistry) ResetFaultCounters() {
+	s.matchCnt = map[int]int{}
+	s.Fired = map[string]int{}
+	s.FaultReq = nil
+}
+
 // referrersOf lists, in arrival order, the stored manifests whose subject is d.
 func (s *SimRegistry) referrersOf(r *regRepo, d digest.Digest) []ocispec.Descriptor {
 	var out []ocispec.Descriptor
@@ -256,7 +263,8 @@ func (s *SimRegistry) RoundTrip(req *http.Request) (*http.Response, error) {
 			return nil, fmt.Errorf("simregistry: reading request body: %w", err)
 		}
 	}
-	if !simrt.Observing() {
+	observer := simrt.Observing()
+	if !observer {
 		simrt.Yield("http." + req.Method)
 	}
 	if err := req.Context().Err(); err != nil {
@@ -270,10 +278,13 @@ func (s *SimRegistry) RoundTrip(req *http.Request) (*http.Response, error) {
 		// what net/http's transport does with such a request
 		return nil, fmt.Errorf("http: ContentLength=%d with Body length %d", req.ContentLength, len(reqBody))
 	}
-	// fault matching happens before the state change for transport/status faults
+	// which fault, if any, hits this exchange (decided before the state changes)
 	fault := ""
-	sr := s.route(req, reqBody, &rec)
+	rec.Class = classifyPath(req.URL.Path)
 	for i, f := range s.faults {
+		if observer {
+			break // an oracle looking at the registry is not part of the workload
+		}
 		if (f.Class == "" || f.Class == rec.Class) && (f.Method == "" || f.Method == req.Method) {
 			s.matchCnt[i]++
 			if s.matchCnt[i] == f.Occur {
@@ -283,15 +294,34 @@ func (s *SimRegistry) RoundTrip(req *http.Request) (*http.Response, error) {
 			}
 		}
 	}
-	rec.Status = sr.status
-	rec.Resp = len(sr.body)
-	s.reqs = append(s.reqs, rec)
-	simrt.Note("http %d %s %s -> %d fault=%s", n, req.Method, req.URL.RequestURI(), sr.status, fault)
+	var sr simResp
 	switch fault {
-	case "transport", "drop-after-apply":
-		return nil, errors.New("simregistry: connection reset by peer (injected)")
+	case "transport":
+		// the request never reached the registry
+		rec.Status = 0
+		s.reqs = append(s.reqs, rec)
+		simrt.Note("http %d %s %s -> connection error (not applied)", n, req.Method, req.URL.RequestURI())
+		return nil, errors.New("simregistry: connection reset by peer (injected, request not applied)")
 	case "status-500":
 		sr = simResp{status: 500, header: http.Header{}, body: errBody("UNKNOWN", "injected")}
+	default:
+		sr = s.route(req, reqBody, &rec)
+	}
+	rec.Status = sr.status
+	rec.Resp = len(sr.body)
+	if !observer {
+		s.reqs = append(s.reqs, rec)
+		simrt.Note("http %d %s %s -> %d fault=%s", n, req.Method, req.URL.RequestURI(), sr.status, fault)
+	}
+	if fault == "status-500" {
+		resp := &http.Response{StatusCode: 500, Status: "500 Internal Server Error", Header: sr.header, Request: req, Proto: "HTTP/1.1", ProtoMajor: 1, ProtoMinor: 1,
+			Body: io.NopCloser(bytes.NewReader(sr.body)), ContentLength: int64(len(sr.body))}
+		return resp, nil
+	}
+	switch fault {
+	case "drop-after-apply":
+		// the registry applied the request; the answer is lost
+		return nil, errors.New("simregistry: connection reset by peer (injected, after the request was applied)")
 	case "digest-header":
 		sr.header.Set("Docker-Content-Digest", digest.FromString("corrupted-"+strconv.Itoa(n)).String())
 	case "content-length":
@@ -804,4 +834,28 @@ func (s *SimRegistry) referrersListing(req *http.Request, h http.Header, refs []
 		s.ListHook("referrers", ds)
 	}
 	return simResp{status: 200, header: h, body: b, length: int64(len(b)), noLen: s.Profile.NoContentLength}
+}
+
+// classifyPath names the endpoint class of a request path without touching state.
+func classifyPath(p string) string {
+	rest := strings.TrimPrefix(p, "/v2/")
+	switch {
+	case rest == "":
+		return "ping"
+	case rest == "_catalog":
+		return "catalog"
+	case strings.HasSuffix(rest, "/tags/list"):
+		return "tags"
+	case strings.HasSuffix(rest, "/blobs/uploads/"):
+		return "upload-start"
+	case strings.Contains(rest, "/blobs/uploads/"):
+		return "upload-put"
+	case strings.Contains(rest, "/blobs/"):
+		return "blob"
+	case strings.Contains(rest, "/manifests/"):
+		return "manifest"
+	case strings.Contains(rest, "/referrers/"):
+		return "referrers"
+	}
+	return ""
 }
